@@ -77,3 +77,32 @@ theorem C13_newline_run_absorbed (src : Array UInt8) (st st' : St) (e1 : Ev) (es
     exact ih (fun x hx => hes x (by simp [hx]))
 
 end Loader
+
+namespace Loader
+open SchemaScan (Ev LexT)
+
+/-- an annotation that starts in default mode is bound to the node created last, and remembers how many nodes
+were created on the current line -/
+theorem annotation_binds_last_node (src : Array UInt8) (st : St) (e : Ev) (hm : st.mode = .default)
+    (he : e.ty = .inlAnnB ∨ e.ty = .mlAnnB) :
+    ∃ st', step src st e = .ok st' ∧ st'.rsNode = st.last ∧ st'.rsCount = st.perLine ∧ st'.nodes = st.nodes := by
+  rcases he with he | he <;> simp [step, he, hm, pure, Except.pure]
+
+/-- a rule value is accepted only when exactly one node was created on the annotation's line -/
+theorem rule_needs_exactly_one_node (src : Array UInt8) (st : St) (e : Ev) (hrs : st.rs = .value) :
+    (st.rsCount = 0 → ruleLoad src st e = .error (.ruleWithoutExample e.b)) ∧
+    (st.rsCount ≥ 2 → ruleLoad src st e = .error (.ruleForSeveralNode e.b)) := by
+  constructor
+  · intro h0
+    simp [ruleLoad, hrs, h0, throw, throwThe, MonadExceptOf.throw]
+  · intro h2
+    have h0 : (st.rsCount == 0) = false := by simp; omega
+    have h1 : (st.rsCount != 1) = true := by simp; omega
+    simp [ruleLoad, hrs, h0, h1, throw, throwThe, MonadExceptOf.throw]
+
+/-- every node-creating event outside annotations increments the per-line counter, a new-line event resets it -/
+theorem newLine_resets_counter (src : Array UInt8) (st : St) (e : Ev) (he : e.ty = .newLine) (hm : st.mode = .default) :
+    ∃ st', step src st e = .ok st' ∧ st'.perLine = 0 ∧ st'.nodes = st.nodes ∧ st'.last = st.last :=
+  ⟨_, step_newLine_default src st e he hm, rfl, rfl, rfl⟩
+
+end Loader
